@@ -27,15 +27,21 @@ def hook_present():
     return " --cfg cfavml_verif_hook_present" if "verif_hook" in src else ""
 
 
-def cfh_bin(config):
+# build-flag variants of a configuration (same sources, own target dir): what `-C target-feature=...` declares at compile time
+VARIANTS = {"fma": "-C target-feature=+avx2,+fma"}
+
+
+def cfh_bin(config, variant=None):
     _, _, tdir, prof = CONFIGS[config]
-    return os.path.join(lib.BUILD, tdir, prof, "cfh")
+    return os.path.join(lib.BUILD, tdir + ("-" + variant if variant else ""), prof, "cfh")
 
 
-def build_cfh(config, verbose=False):
+def build_cfh(config, verbose=False, variant=None):
     """(Re)build the harness in one configuration; cargo decides what is stale.  Returns (ok, log)."""
     tc, args, tdir, _ = CONFIGS[config]
-    with lib.build_lock("lock-cargo-" + config):
+    if variant:
+        tdir = tdir + "-" + variant
+    with lib.build_lock("lock-cargo-" + config + ("-" + variant if variant else "")):
         try:
             import gen_glue
             gen_glue.write(config)
@@ -46,7 +52,8 @@ def build_cfh(config, verbose=False):
         if os.path.exists(lock_src) and not os.path.exists(os.path.join(CFH, "Cargo.lock")):
             shutil.copy(lock_src, os.path.join(CFH, "Cargo.lock"))
         cmd = "cargo %s build --offline %s" % (tc, " ".join(args))
-        env = {"CARGO_TARGET_DIR": os.path.join(lib.BUILD, tdir), "RUSTFLAGS": HOOK_FLAGS + " -Awarnings --cfg cfh_%s%s" % (config, hook_present()),
+        env = {"CARGO_TARGET_DIR": os.path.join(lib.BUILD, tdir), "RUSTFLAGS": HOOK_FLAGS + " -Awarnings --cfg cfh_%s%s" % (config, hook_present())
+               + ((" " + VARIANTS[variant]) if variant else ""),
                "CFH_CONFIG": config}
         t = time.time()
         rc, out = lib.sh(cmd, cwd=CFH, env=env, timeout=3000)
